@@ -248,6 +248,8 @@ def run(a, seed, t_start):
         "known_finding_obligations": [{"function": cn, "obligation": o.id, "verdict": o.final} for cn, o in known_obls],
         "undecided_or_refuted": [{"function": cn, "obligation": o.id, "verdict": o.final, "backend": o.backend, "reason": (o.raw or "")[:200]} for cn, _, o in failing],
         "out_of_reach": out_of_reach,
+        # the slowest discharged obligations of this run (slow queries are the ones to watch: they are the unstable ones)
+        "slowest": [{"function": cn, "obligation": o.id, "backend": o.backend, "seconds": round(o.time, 2)} for cn, _, o in sorted(all_obls, key=lambda x: -x[2].time)[:5]],
         "samples": samples,
         "explanation": P["explanation"],
         "not_decided_here": P.get("not_decided_here", ""),
